@@ -98,7 +98,6 @@ func (w *worker) kill() {
 	}
 }
 
-
 // classifyDeath turns the stderr of a dead worker into (headline, signature).
 func classifyDeath(stderr string) (string, string) {
 	head := ""
